@@ -54,7 +54,7 @@ theorem index_panics {n : Nat} {b : Bits} {x : Nat} (hw : WF n b) (hx : 64 * n â
     set b x = .error .index âˆ§ remove b x = .error .index âˆ§ flip b x = .error .index âˆ§
       test b x = .error .index := by
   have h : b[x / 64]? = none := List.getElem?_eq_none (by rw [hw.1]; omega)
-  simp only [set, remove, flip, test, h, and_self]
+  simp only [Bitset.set, Bitset.remove, Bitset.flip, Bitset.test, h, and_self]
 
 /-! ### word-wise operators -/
 
@@ -179,6 +179,8 @@ theorem invariant_preserved {n k : Nat} (hn : 1 â‰¤ n) (ops : List Op)
   exact ha.1
 
 /-! ### non-vacuity: the hypotheses are met by concrete states at the word boundaries -/
+
+deriving instance DecidableEq for Except   -- only used to evaluate the closed examples below
 
 /-- A two-word bitset with members 0, 63, 64: `Abs` holds (it is what `load` builds). -/
 example : Abs 2 [2 ^ 63 + 1, 1] (Spec.ofWords [2 ^ 63 + 1, 1]) := by
